@@ -294,6 +294,13 @@ def read2dRows {V : Type} [DecidableEq V] (n : Num V) (near degen : Pt2 V → Pt
           finish2 n near degen o.domain pts
             ((seqEdges 0 tags).zip (rows.map (fun r => r.headD (n.ofIdx 0))))
 
+/-- `np.atleast_2d(np.genfromtxt(...))`: a file with ONE column and several rows arrives as a 1-d
+    array and is therefore treated as ONE row -/
+def atleast2d {V : Type} (rows : List (List V)) : List (List V) :=
+  match rows with
+  | r :: _ :: _ => if r.length == 1 then [rows.flatten] else rows
+  | _ => rows
+
 /-- `network_2d_from_csv(f_name, tagcols, tol, max_num_fracs, polyline, return_frac_id=True, domain,
     skip_header=…)`.  An undecodable cell is reported as `Err.decode` (the real reader, genfromtxt,
     stores nan there; the model does not follow it further). -/
@@ -307,8 +314,8 @@ def read2d {V T : Type} [DecidableEq V] (c : Codec V T) (n : Num V) (near degen 
     else
       match o.maxNumFracs with
       | some 0 => .ok ⟨[], none, []⟩
-      | some k => read2dRows n near degen (rows.take k) o
-      | none => read2dRows n near degen rows o
+      | some k => read2dRows n near degen ((atleast2d rows).take k) o
+      | none => read2dRows n near degen (atleast2d rows) o
 
 /-! ### 3-D networks -/
 
